@@ -236,17 +236,31 @@ CLAIMED.update({
 })
 
 for _pid, _extra in {
-    "C02": "; result positions on explicit small games (R2.9)",
-    "C03": "; explicit small games: omitted ranks == increasing ranks, scores == ranks (R3.5)",
+    "C02": "; result positions on explicit small and larger games (R2.9); the limit_sigma cap by finite case analysis (R2.10)",
+    "C03": "; explicit small games: omitted ranks == increasing ranks, scores == ranks (R3.5), closed form under every weak ordering (R3.6)",
     "C04": "; explicit small games: the stored terms are unchanged under exchanges of teams / players (R4.6)",
+    "C05": "; explicit small games: members move in the ratio of their inflated variances (R5.4), closed form (R5.5)",
+    "C06": "; explicit small games: the limit_sigma cap by finite case analysis (R6.6), stored sigma == closed form (R6.7)",
     "C07": "; explicit small games: the statement's sum is the zero rational function (R7.11)",
+    "C08": "; explicit games: every operation returns normally (R8.3), results are the closed forms (R8.4, R8.5)",
     "C09": "; explicit small games: the returned terms sum to 1, permute with the teams, coincide for identical teams (R9.9)",
-    "C10": "; explicit small games: the returned term is unchanged under exchanges of teams / players (R10.5)",
-    "C11": "; explicit small games: probabilities in input order, probabilities + predict_draw == 1 up to abs signs (R11.8)",
+    "C10": "; explicit small games: the returned term is unchanged under exchanges of teams / players (R10.5), closed form (R10.6)",
+    "C11": "; explicit small games: probabilities in input order, probabilities + predict_draw == 1 up to abs signs (R11.8), ranking clause on every weak ordering of the returned probabilities for any ranking code (R11.9)",
+    "C13": "; explicit games: well-formed calls return normally (R13.5)",
+    "C15": "; explicit small games: per-call option == model-level setting, float and int tau (R15.6)",
     "C19": "; explicit small games: Bradley-Terry part == full on two teams (R19.5), predictions agree across models (R19.6)",
 }.items():
     _t = CLAIMED[_pid]
-    CLAIMED[_pid] = (_t[0] + _extra, _t[1], _t[2], _t[3] + " Explicit-game rules: " + GAME + "; finite in the number of teams (2-4) and players per team (1-2), exhaustive in the weak orderings of the ranks.", _t[4])
+    CLAIMED[_pid] = (_t[0] + _extra, _t[1], _t[2], _t[3] + " Explicit-game rules: " + GAME + "; finite in the number of teams and players per team, exhaustive in the weak orderings of the ranks for 2-3 (thorough 4) teams. "
+                     "A structural rule contradicted by the explicit-game rule of the same clause is reported undecided (exit 2), one that did not recognise the idiom is recorded as assumed (DESIGN 10.11).", _t[4])
+
+for _pid, _extra in {
+    "C14": "; sets modelled: iteration over a set of objects or strings is a hash-order finding",
+    "C17": "; interval analysis on the whole float range for raising operations (R17.6)",
+    "C20": "; memo protocol of __deepcopy__ evaluated with a pre-filled memo (R20.4)",
+}.items():
+    _t = CLAIMED[_pid]
+    CLAIMED[_pid] = (_t[0] + _extra,) + _t[1:]
 
 NOT_APPLICABLE = {
 }
